@@ -551,6 +551,12 @@ func (g *pkgGen) generate(pkgLevel bool) (src string, queries []query) {
 							continue
 						}
 						queries = append(queries, query{Type: t.name, Expr: expr, Names: []string{n}, Want: nonNil(ef.doc.expectedFor(n)), OK: true, Kind: "delegated-field", Hostile: true, Prefixed: len(f.doc.comment) > 0})
+						// the documentation of a field belongs to the TYPE: the zero value (embedded pointer nil) answers
+						// as well (seeded change C16-n: a nil guard around the delegation). Asked only where the unchanged
+						// shape cannot dereference the nil pointer on the way: t's only embedding, itself without embeddings
+						if f.embPtr && t.kind == "struct" && embCount(t) == 1 && embCount(e) == 0 {
+							queries = append(queries, query{Type: t.name, Expr: "&" + t.name + "{}", Names: []string{n}, Want: nonNil(ef.doc.expectedFor(n)), OK: true, Kind: "delegated-field-nil-embedded-pointer", Hostile: true, Prefixed: len(f.doc.comment) > 0})
+						}
 					}
 				}
 				continue
@@ -612,6 +618,16 @@ func quoteAll(ss []string) []string {
 		o = append(o, strconv.Quote(s))
 	}
 	return o
+}
+
+func embCount(t *typ) int {
+	n := 0
+	for _, f := range t.fields {
+		if f.embedded != "" {
+			n++
+		}
+	}
+	return n
 }
 
 var mismatchRe = regexp.MustCompile(`C16MISMATCH (\d+) (.*)`)
